@@ -21,6 +21,7 @@ type litValue struct {
 	Unix  int64             // dateTime
 	Nanos int               // dateTime
 	Secs  int64             // duration, whole seconds
+	Over  bool              // duration: more than a time.Duration holds; no accessor can return it
 	Num   float64           // float, nonNegativeInteger
 	Bool  bool              // boolean
 	Map   map[string]string // langString
@@ -128,13 +129,23 @@ func parseRFC3339(s string) (unix int64, nanos int, ok bool) {
 
 // parseDuration parses -?PnYnMnDTnHnMnS with 365-day years and 30-day months.
 func parseDuration(s string) (secs int64, ok bool) {
+	secs, ok, _ = parseDurationOver(s)
+	return
+}
+
+// maxDurationSecs is the largest whole number of seconds a time.Duration holds.
+const maxDurationSecs = int64(9223372036)
+
+// parseDurationOver also tells whether the duration denoted is more than a
+// time.Duration (int64 nanoseconds) can hold; secs is meaningless then.
+func parseDurationOver(s string) (secs int64, ok bool, over bool) {
 	neg := false
 	if strings.HasPrefix(s, "-") {
 		neg = true
 		s = s[1:]
 	}
 	if !strings.HasPrefix(s, "P") || len(s) < 2 {
-		return 0, false
+		return 0, false, false
 	}
 	s = s[1:]
 	datePart, timePart := s, ""
@@ -143,7 +154,7 @@ func parseDuration(s string) (secs int64, ok bool) {
 		datePart, timePart = s[:i], s[i+1:]
 		hasT = true
 		if timePart == "" {
-			return 0, false
+			return 0, false, false
 		}
 	}
 	eat := func(part string, units string, mult []int64) (int64, bool) {
@@ -161,14 +172,20 @@ func parseDuration(s string) (secs int64, ok bool) {
 			if j == pos || j == len(part) {
 				return 0, false
 			}
-			n, err := strconv.ParseInt(part[pos:j], 10, 64)
-			if err != nil {
-				return 0, false
+			n, err := strconv.ParseInt(strings.TrimLeft(part[pos:j-1], "0")+part[j-1:j], 10, 64)
+			if err != nil || n > maxDurationSecs {
+				// digits only, so only the magnitude can be wrong
+				over = true
+				n = 0
 			}
 			found := false
 			for ui < len(units) {
 				if units[ui] == part[j] {
 					total += n * mult[ui]
+					if total > maxDurationSecs {
+						over = true
+						total = 0
+					}
 					ui++
 					found = true
 					break
@@ -184,24 +201,30 @@ func parseDuration(s string) (secs int64, ok bool) {
 	}
 	d, ok1 := eat(datePart, "YMD", []int64{365 * 86400, 30 * 86400, 86400})
 	if !ok1 {
-		return 0, false
+		return 0, false, false
 	}
 	var t int64
 	if hasT {
 		var ok2 bool
 		t, ok2 = eat(timePart, "HMS", []int64{3600, 60, 1})
 		if !ok2 {
-			return 0, false
+			return 0, false, false
 		}
 	}
 	if datePart == "" && !hasT {
-		return 0, false
+		return 0, false, false
 	}
 	secs = d + t
+	if secs > maxDurationSecs {
+		over = true
+	}
+	if over {
+		return 0, true, true
+	}
 	if neg {
 		secs = -secs
 	}
-	return secs, true
+	return secs, true, false
 }
 
 // denote returns what JSON value v denotes under literal kind k, if anything.
@@ -235,7 +258,7 @@ func denote(k string, v interface{}) (litValue, bool) {
 		if !ok {
 			return lv, false
 		}
-		lv.Secs, ok = parseDuration(s)
+		lv.Secs, ok, lv.Over = parseDurationOver(s)
 		return lv, ok
 	case "XMLSchemaBoolean":
 		switch b := v.(type) {
@@ -311,6 +334,9 @@ func (lv litValue) matches(got reflect.Value) (bool, string) {
 		if !ok {
 			return false, fmt.Sprintf("got %#v", g)
 		}
+		if lv.Over {
+			return false, fmt.Sprintf("got %v for a duration that is more than a time.Duration holds", d)
+		}
 		return d == time.Duration(lv.Secs)*time.Second, fmt.Sprintf("got %v want %ds", d, lv.Secs)
 	case "XMLSchemaBoolean":
 		b, ok := g.(bool)
@@ -350,7 +376,9 @@ func nonCanonicalSamples(kind string) []interface{} {
 	case "XMLSchemaDuration":
 		// counts are decimal whatever their spelling: leading zeros, and
 		// components beyond their carry (36 hours, 90 minutes, 400 days)
-		return []interface{}{"PT010M", "P012D", "PT08S", "PT1H09M", "PT0100S", "P01Y02M", "P007DT08H", "PT36H", "PT90M", "P400D", "PT3600S", "P0Y0M1D", "-PT09M08S"}
+		return []interface{}{"PT010M", "P012D", "PT08S", "PT1H09M", "PT0100S", "P01Y02M", "P007DT08H", "PT36H", "PT90M", "P400D", "PT3600S", "P0Y0M1D", "-PT09M08S",
+			// the largest durations a time.Duration holds
+			"P292Y", "PT9223372036S", "-PT9223372036S", "P106751D"}
 	}
 	return nil
 }
@@ -364,7 +392,10 @@ func baseSamples(k string) []interface{} {
 		return []interface{}{"plain text", "", "two words & <b>markup</b>", "unicode é世界", "no-scheme/path",
 			"Re: hello", "CW: spoilers #tag y", "Note: 100% sure?", "LKO2:N%2Tw=w]~RB", "a:b", "HTTPS://Example.com/Path", "x-y.z+1:rest of the line",
 			// text in the neighbourhood of other kinds' lexical spaces
-			"Paris", "P", "-P", "PT", "P1Y2", "PT5", "P1S", "P1D and more", "PY", "P1DT", "2020-13-45", "truely", "12abc"}
+			"Paris", "P", "-P", "PT", "P1Y2", "PT5", "P1S", "P1D and more", "PY", "P1DT", "2020-13-45", "truely", "12abc",
+			// near an instant, outside its lexical space: a one-digit hour, a
+			// comma before the fraction, a zone offset of a day or more
+			"2014-12-31T1:00:00Z", "2014-12-31T1:00Z", "2014-12-31T23:00:00,5Z", "2014-12-31T23:00:00+24:00", "2014-12-31T23:00+99:00", "2014-12-31t23:00:00z", "2014-12-31 23:00:00Z"}
 	case "RFCBcp47":
 		return []interface{}{"en", "en-US", "zh-Hant-TW"}
 	case "RFCRfc2045":
@@ -379,7 +410,10 @@ func baseSamples(k string) []interface{} {
 	case "XMLSchemaDuration":
 		return []interface{}{"PT0S", "PT5S", "PT2H", "P1D", "P1Y", "P1M", "P1Y2M3DT4H5M6S", "-PT30M", "-P1Y1M1DT1H1M1S", "P11M29DT23H59M59S", "PT1M", "P289Y", "P1DT1S",
 			// sign x {date part only, time part only, both}; single components
-			"-P1D", "-P1Y", "-P1M", "-P2Y3M", "-P3M4D", "-P1Y2M3D", "-PT1S", "-PT2H", "-PT1M", "-P1DT1S", "-P1YT1H", "P2Y3M", "P3M4D", "P29D", "PT23H", "PT59M59S", "PT1H1S"}
+			"-P1D", "-P1Y", "-P1M", "-P2Y3M", "-P3M4D", "-P1Y2M3D", "-PT1S", "-PT2H", "-PT1M", "-P1DT1S", "-P1YT1H", "P2Y3M", "P3M4D", "P29D", "PT23H", "PT59M59S", "PT1H1S",
+			// more than a time.Duration holds: no typed accessor can return
+			// what these denote, so they can only be kept as they are
+			"P293Y", "P300Y", "-P300Y", "P1000Y", "P3600M", "P106752D", "PT2562048H", "PT9223372037S", "P200YT876000H", "P99999999999999999999Y"}
 	case "XMLSchemaBoolean":
 		return []interface{}{true, false}
 	case "XMLSchemaFloat":
